@@ -150,6 +150,8 @@ def check(spec, tier, res):
         decs.append(("syndrome", lambda: D.SyndromeLookupDecoder(enc), True))
     if k <= (8 if q else 10) and n <= (15 if q else 24):
         decs.append(("bruteforce", lambda: D.BruteForceMLDecoder(enc), True))
+        if n <= 7 and fam in ("hamming", "cyclic", "rm", "repetition", "spc"):
+            decs.append(("bruteforce-lazy", lambda: D.BruteForceMLDecoder(enc, precompute_codebook=False), True))
     if fam == "bch":
         decs.append(("bm", lambda: D.BerlekampMasseyDecoder(enc), False))
     if fam == "rm" and prm["m"] <= (4 if q else 5):
@@ -222,7 +224,7 @@ def check(spec, tier, res):
                     if nbad == 1:
                         res.viol(comp, cfg, "nearest", f"received {gf2.bits(w, n)} ({pres}) decoded to {None if got is None else gf2.bits(got, k)} at distance {None if got is None or got not in cb else gf2.weight(w ^ cb[got])}, nearest codeword is at {dmin}", {"w": w, "pres": pres})
         # ---------- return_errors consistency
-        if dname in ("syndrome", "bruteforce", "bm", "reed"):
+        if dname in ("syndrome", "bruteforce", "bruteforce-lazy", "bm", "reed"):
             import torch
             e1 = 1 if (complete or (t_adv or 0) >= 1) else 0   # stay inside a bounded-distance decoder's capability
             sel = [cb[msgs[-1]] ^ e1, cb[msgs[1 % len(msgs)]], cb[msgs[len(msgs) // 2]] ^ (e1 << (n - 1))]
